@@ -45,6 +45,7 @@ def cases(ctx):
     else:
         yield 'exh', {'nmax': 3, 'kmax': 3, 'mod': ctx.nshards, 'rem': ctx.shard}
     n = 1200 if q else 30000
+    ctx.new_phase()
     for i in range(n):
         if not ctx.time_left():
             break
